@@ -384,11 +384,8 @@ def emit_afm(m, nm, ch):
     for c in m['ctcs']:
         out.append(afm_expr(c['ast'], nm, ch, top=True) + ';')
     text = '\n'.join(out) + '\n'
-    if ch.get('broken') == 'syntax':           # a relationship line without its terminator / a dangling operator
-        if m['ctcs']:
-            text = text.rstrip('\n').rstrip(';') + ' AND ;\n'
-        else:
-            text = text.replace(';', '', 1)
+    if ch.get('broken') == 'relational':       # a relational constraint: valid AFM the library cannot represent
+        text = text + '%s > 3;\n' % nm.conc(m['root'])
     return text
 
 
